@@ -5,7 +5,7 @@ _ENG = {"crate": "core", "bin": "sv-c15", "machine": "c15", "nontrivial_min_ops"
 PROP = {
     "generated": ["ReconEqConsts"],
     "lean_modules": ["SwimVerif.Model.ReconEq", "SwimVerif.Model.ReconEqProto", "SwimVerif.Proofs.ReconEq",
-                     "SwimVerif.Proofs.ReconEqCmp", "SwimVerif.Proofs.ReconEqValid", "SwimVerif.Proofs.ReconEqMat", "SwimVerif.Model.Recon", "SwimVerif.Model.ReconProto",
+                     "SwimVerif.Proofs.ReconEqCmp", "SwimVerif.Proofs.ReconEqValid", "SwimVerif.Proofs.ReconEqMat", "SwimVerif.Proofs.ReconEqLeaves", "SwimVerif.Proofs.ReconEqHash", "SwimVerif.Model.Recon", "SwimVerif.Model.ReconProto",
                      "SwimVerif.Generated.ReconTables", "SwimVerif.Generated.ReconEqConsts"],
     "engines": [
         # printer output only (what the backpressure layer holds as keys): one value through two of the three printers,
@@ -41,9 +41,12 @@ PROP = {
                   "hand-written PartialEq) is reflexive and symmetric on ALL pairs of event streams and never answers "
                   "Some(false) on streams that agree event by event; on the canonical event stream of ANY value the "
                   "validator is never Invalid, the materializer reads the value back, and canonical streams of equal "
-                  "values compare Some(true). Both halves of the property are FALSE of the code as it is, with "
-                  "witnesses proved on the model and replayed on the real functions: equal => same hash (C15-N1 -0.0, "
-                  "C15-N2 textual is_implicit_record) and equal => same value (C15-N3: {{1,2}} == {1,{2}}). "
+                  "values compare Some(true); after the repairs C15-N1/N2 (committed) the event-level HashParser gives the "
+                  "normal form on EVERY layout (any mixture of implicit/explicit attribute bodies) of EVERY value, so "
+                  "equal values hash alike; whenever the comparator says equal for two single-value streams they differ "
+                  "only in where braces stand (so the known class of C15-N3 is exact). The comparison half of the "
+                  "property is FALSE of the code as it is, witness proved on the model and replayed on the real "
+                  "functions: {{1,2}} == {1,{2}} (C15-N3, known; hence also equal => same hash fails on that pair). "
                   "Correspondence: the real event stream (observed through a recording Recognizer), "
                   "parse_recognize::<Value>, every Hasher call of recon_hash and compare_recon_values are reproduced "
                   "exactly by the model on printer output, free layouts, grammar documents, damaged texts and all "
